@@ -8,7 +8,7 @@
    [app_after a] is the application-side bookkeeping of Spec/DrainSpec.v after the trace prefix [a]:
    a_objs = requests handed out whose objects are not all gone, a_goaway = the peer's GOAWAY has arrived,
    a_wait = request streams opened by the peer and not yet taken by accept(). *)
-From H3V Require Import Base.Bytes Spec.GoawaySpec Spec.DrainSpec Model.Goaway Model.Ongoing Model.GoawayWrite
+From H3V Require Import Base.Bytes Gen.GenGoaway Spec.GoawaySpec Spec.DrainSpec Model.Goaway Model.Ongoing Model.GoawayWrite
   Proofs.DrainProofs.
 
 (* T1 safety: accept() answers "no more requests" only when no request it handed out has a live handle *)
@@ -60,6 +60,16 @@ Proof.
   rewrite E. destruct (dstep (bw_w b) o) as [outs w']. reflexivity.
 Qed.
 
+(* the decision points the C09 proofs rest on, as read from the source on this run (the anchored bodies are
+   compared whole; who may report the end of a request - one request_end.send, in Drop for RequestEnd - is part of it) *)
+Theorem C09_decision_points :
+  end_created_at_accept = true /\ end_moved_from_resolver = true /\ end_drop_sends = true /\
+  ongoing_insert = true /\ ongoing_insert_is_stream = true /\ completion_removes = true /\
+  pending_needs_recv_closing = true /\ reject_none_if_idle = true /\
+  headers_qpack_code = rfc_QPACK_DECOMPRESSION_FAILED /\ headers_unexpected_code = rfc_H3_FRAME_UNEXPECTED /\
+  headers_truncated_code = rfc_H3_FRAME_ERROR /\ order_code = rfc_H3_ID_ERROR.
+Proof. repeat split. Qed.
+
 (* the same two clauses as the one-pass monitor run on the traces of the real implementation *)
 Theorem C09_monitor_accepts_model :
   forall h, NoDup (arrivals h) -> drain_okb (dtrace h) = true.
@@ -106,6 +116,7 @@ Print Assumptions C09_never_pending_once_drained.
 Print Assumptions C09_errors_only_when_justified.
 Print Assumptions C09_drained_poll_answers_none.
 Print Assumptions C09_unblocked_is_base_model.
+Print Assumptions C09_decision_points.
 Print Assumptions C09_monitor_accepts_model.
 Print Assumptions C09_monitor_sound.
 Print Assumptions C09_monitor_complete.
